@@ -32,7 +32,16 @@ func runQueueBlocking(c *Ctx) {
 	c.Funcs("vm", func(fr *FuncRef) { byObj[fr.Obj] = fr })
 	// functions with an unguarded send on a chan *Promise
 	sends := map[*types.Func][]ast.Node{}
+	anySend := map[*types.Func]ast.Node{}
 	c.Funcs("vm", func(fr *FuncRef) {
+		ast.Inspect(fr.Decl.Body, func(n ast.Node) bool {
+			if s, ok := n.(*ast.SendStmt); ok && anySend[fr.Obj] == nil {
+				if ch, ok := info.TypeOf(s.Chan).Underlying().(*types.Chan); ok && NamedOf(ch.Elem()) == "vm.Promise" {
+					anySend[fr.Obj] = s
+				}
+			}
+			return true
+		})
 		for _, op := range chanOpsOf(info, fr.Decl.Body, nil) {
 			if op.what == "send" && !op.guarded {
 				// only task queues: channel of *Promise
@@ -47,15 +56,19 @@ func runQueueBlocking(c *Ctx) {
 			}
 		}
 	})
-	if len(sends) == 0 {
-		c.Stale("vm: a blocking send on a channel of *Promise")
+	if len(anySend) == 0 {
+		c.Stale("vm: a send on a channel of *Promise (the task queue)")
 	}
 	// call edges inside vm (static callees; native function values are not
 	// followed: a native started from a worker runs on that worker too, which
-	// only adds paths)
+	// only adds paths). The call of a go statement runs on a goroutine of its
+	// own, not on the worker.
 	callees := func(fr *FuncRef) []*types.Func {
 		var out []*types.Func
 		ast.Inspect(fr.Decl.Body, func(n ast.Node) bool {
+			if _, ok := n.(*ast.GoStmt); ok {
+				return false
+			}
 			if call, ok := n.(*ast.CallExpr); ok {
 				if fn := Callee(info, call); fn != nil && byObj[fn.Origin()] != nil {
 					out = append(out, fn.Origin())
@@ -83,12 +96,16 @@ func runQueueBlocking(c *Ctx) {
 		}
 	}
 	var fs []*types.Func
-	for f := range sends {
+	for f := range anySend {
 		fs = append(fs, f)
 	}
 	sort.Slice(fs, func(i, j int) bool { return FuncID(fs[i]) < FuncID(fs[j]) })
 	for _, f := range fs {
 		key := "worker-reaches/" + FuncName(byObj[f].Decl)
+		if len(sends[f]) == 0 {
+			c.OK(key, anySend[f].Pos(), "every send on the task queue in this function is an arm of a select with a default or context arm (or runs on a goroutine of its own)")
+			continue
+		}
 		if _, reach := parent[f]; !reach {
 			c.OK(key, sends[f][0].Pos(), "not reachable from the worker loop")
 			continue
@@ -120,6 +137,9 @@ func runQueueBlocking(c *Ctx) {
 		}
 		bad := false
 		ast.Inspect(fr.Decl.Body, func(n ast.Node) bool {
+			if _, ok := n.(*ast.GoStmt); ok {
+				return false
+			}
 			if n == nil || n.Pos() < lockPos.Pos() || n.Pos() > unlockPos.Pos() {
 				return true
 			}
